@@ -599,13 +599,13 @@ pub fn property_c06(_tier: Tier) -> PropertyDef {
     PropertyDef {
         id: "C06",
         level: "exploration",
-        rule: "states: cheapest insertion on a generated pragmatic problem (pgen) stopped after 0-8 insertions; the other jobs wait in `unassigned` (Unknown). (a) insertion_soundness, all features: eval_job_insertion_in_route (LegSelection::Exhaustive, BestResultSelector) is called for every waiting job x every tour (existing and the next new one per vehicle type) x every InsertionPosition::Concrete(p) and Any; up to 24 accepted (tour, job, position) triples per case are CARRIED OUT through InsertionHeuristic::process (harness evaluator handing out exactly that InsertionSuccess, so apply_insertion_success and finalisation run) and the resulting solution, written by the public writer, must pass the feasibility and conservation oracles of the reference model R (the state before must pass too, else the case is skipped and counted). (b) insertion_completeness, problems restricted to time windows, shift times and capacity: an independent step-by-step simulation (matrix look-ups, service start = max(arrival, window start), static deliveries on board from the start, static pickups to the end, shipment demand in between) enumerates every (leg, place, window) of every waiting single-task job; Any must succeed iff the simulation finds a feasible triple, the triple it returns must be one of them, and every Concrete(p) success must be one of them at p; a second pass places the job's window end exactly on / one second before / degenerate at a reachable arrival time. evaluations = carried-out placements (a) + evaluator calls compared with the simulation (b). Non-trivial: the job has both feasible and infeasible positions in that tour, or equality at a window end / capacity exactly full.",
+        rule: "states: cheapest insertion on a generated pragmatic problem (pgen) stopped after 0-8 insertions; the other jobs wait in `unassigned` (Unknown). (a) insertion_soundness, all features: eval_job_insertion_in_route (LegSelection::Exhaustive, BestResultSelector) is called for every waiting job x every tour (existing and the next new one per vehicle type) x every InsertionPosition::Concrete(p) and Any; up to 24 accepted (tour, job, position) triples per case are CARRIED OUT through InsertionHeuristic::process (harness evaluator handing out exactly that InsertionSuccess, so apply_insertion_success and finalisation run) and the resulting solution, written by the public writer, must pass the feasibility and conservation oracles of the reference model R (the state before must pass too, else the case is skipped and counted). (b) insertion_completeness, problems restricted to time windows, shift times and capacity: an independent step-by-step simulation (matrix look-ups, service start = max(arrival, window start), static deliveries on board from the start, static pickups to the end, shipment demand in between) enumerates every (leg, place, window) of every waiting single-task job; Any must succeed iff the simulation finds a feasible triple, the triple it returns must be one of them, and every Concrete(p) success must be one of them at p; a second pass places the job's window end exactly on / one second before / degenerate at a reachable arrival time. (c) core_offset_windows_after_departure_shift: tours built through the core API (3-6 grid points, Manhattan metric, one closed vehicle shift, 0-4 existing jobs with at most one absolute window), departure shifted by 0-200 through update_route_departure, candidate single-task job with 1-2 time spans, each absolute or TimeSpan::Offset (relative to the departure): every Success (each Concrete(p) and Any) must name a (leg, window) that an independent simulation finds feasible with the windows resolved from the job definition and the actual departure, and Any must succeed whenever the simulation finds a feasible pair. evaluations = carried-out placements (a) + evaluator calls compared with the simulation (b, c). Non-trivial: the job has both feasible and infeasible positions in that tour, or equality at a window end / capacity exactly full.",
         assumptions: vec![
             "multi-task jobs are exempt from completeness, as the property states; Concrete(p) failing on a feasible p is counted, not asserted (only exhaustive best insertion claims completeness)",
             "the simulation keeps the windows already chosen for the activities in the tour and the tour's current departure time, exactly what the evaluator is documented to work with",
             "travel times come from the generated matrix (time-independent); provider correctness is C16's subject",
         ],
-        props: vec![Box::new(SoundProp), Box::new(CompleteProp)],
+        props: vec![Box::new(SoundProp), Box::new(CompleteProp), Box::new(super::insert_core::CoreOffsetProp)],
         extra: None,
         required_classes: vec![
             "sound.single_task",
